@@ -181,6 +181,20 @@ def run_once(gen, tl, trigger, reinit=False, pending=4, double=False):
             log.add("API.ret", name="shutdown")
             out["sd_ret_t"] = loop.time()
             out["mark"] = log.mark()
+            # census at the very instant shutdown() returned (a few loop turns for tasks that
+            # were cancelled to finish; no time passes): the caller's own in-flight init()
+            # with its timeout, sender tasks and everything of the simulation are not the
+            # client's
+            for _ in range(10):
+                await asyncio.sleep(0)
+            hs = set(mine)
+            if "init_task" in ctx:
+                hs.add(ctx["init_task"])
+            for t in getattr(ctx.get("run"), "tasks", None) or []:
+                hs.add(t)
+            hs |= {t for t in asyncio.all_tasks(loop)
+                   if "do_send" in H.describe_tasks([t])[0]}
+            out["now_tasks"], out["now_timers"], out["now_unknown"] = H.client_census(loop, hs)
             sd_done.set()
 
         def fire():
@@ -389,6 +403,14 @@ def judge(gen, tl, trig, o, reinit):
           tasks=o["tasks"], late=o["tasks_late"])
     if o["timers"] or o["timers_late"]:
         v("timer-left-after-shutdown", timers=o["timers"], late=o["timers_late"])
+    if o.get("now_tasks"):
+        v("task-still-scheduled-when-shutdown-returns:" + o["now_tasks"][0], tasks=o["now_tasks"])
+    if o.get("now_timers"):
+        v("timer-still-scheduled-when-shutdown-returns", timers=o["now_timers"])
+    if "now_tasks" in o and not o["now_tasks"] and not o["now_timers"]:
+        obs["census_at_return_empty"] = 1
+    if o.get("now_unknown"):
+        obs["unattributed_timers_at_return"] = len(o["now_unknown"])
     if o["send_after"] != "NotOpenError":
         v("send-after-shutdown-not-refused", got=o["send_after"])
     if reinit and "reinit_ret" in o:
